@@ -271,3 +271,21 @@ class Nonzero(Family):
         ctx.skolem(z3.And(0 <= p, p < g.S(g.n), g.D.fn(p) != 0))
         ctx.add_index(p, nz.rk(p))
         ctx.prove("post.every non-zero cell is listed", z3.And(0 <= nz.rk(p), nz.rk(p) < nz.cnt, nz.pos(nz.rk(p)) == p))
+        # the contract as callers use it (same formulas as assumed by their stubs)
+        ground, schemas = contract_ragged_nonzero(g, lambda j: g.D.fn(j) != 0, rows.get, cols.get, nz.cnt, nz.pos, nz.rk)
+        ctx.prove("contract.ground facts", z3.And(*ground))
+        ctx.prove("contract." + schemas[0][0], schemas[0][1](t), live=[t])
+        ctx.prove("contract." + schemas[1][0], schemas[1][1](p), live=[p])
+        t2 = z3.Int("t2")
+        ctx.prove("contract." + schemas[2][0], schemas[2][1](t2, t), pool=[t, t2])
+
+
+def contract_ragged_nonzero(g, M, rows, cols, cnt, pos, rk):
+    """caller-visible contract of RaggedArray.nonzero() on a contiguous array with geometry g and flat truth values M:
+    (rows[t], cols[t]) for t < cnt are the coordinates of the non-zero cells in flat order.  Proved in Nonzero (contract.*)."""
+    A = lambda t: z3.Implies(z3.And(0 <= t, t < cnt),
+                             z3.And(0 <= rows(t), rows(t) < g.n, 0 <= cols(t), cols(t) < g.L(rows(t)), g.S(rows(t)) + cols(t) == pos(t), M(pos(t)),
+                                    z3.Implies(t + 1 < cnt, pos(t) < pos(t + 1))))
+    B = lambda p: z3.Implies(z3.And(0 <= p, p < g.S(g.n), M(p)), z3.And(0 <= rk(p), rk(p) < cnt, pos(rk(p)) == p))
+    C = lambda s_, t: z3.Implies(z3.And(0 <= s_, s_ < t, t < cnt), pos(s_) < pos(t))
+    return [cnt >= 0], [("nonzero.listed-cells", A, 1), ("nonzero.every-cell-listed", B, 1), ("nonzero.flat-order", C, 2)]
